@@ -624,6 +624,7 @@ func (s *Subscription) processCollectionEvent(event *rescache.ResourceEvent) {
 		switch v.Type {
 		case codec.ValueTypeReference:
 			rid := v.RID
+			_, had := s.refs[rid]
 			sub, err := s.addReference(rid)
 			if err != nil {
 				s.c.Errorf("Subscription %s: Error subscribing to resource %s: %s", s.rid, v.RID, err)
@@ -635,8 +636,11 @@ func (s *Subscription) processCollectionEvent(event *rescache.ResourceEvent) {
 			if sub.IsSent() {
 				// We increase the indirectsent references, otherwise increased
 				// when calling sub.GetRPCResources, since we have no new
-				// resources to populate.
-				sub.indirectsent++
+				// resources to populate. As with indirect, a resource referenced
+				// more than once by s is only counted once.
+				if !had {
+					sub.indirectsent++
+				}
 				s.c.Send(rpc.NewEvent(s.rid, event.Event, rpc.AddEvent{Idx: idx, Value: v.RawMessage}))
 				return
 			}
@@ -697,11 +701,17 @@ func (s *Subscription) processModelEvent(event *rescache.ResourceEvent) {
 
 		for _, v := range ch {
 			if v.Type == codec.ValueTypeReference {
+				_, had := s.refs[v.RID]
 				sub, err := s.addReference(v.RID)
 				if err != nil {
 					s.c.Errorf("Subscription %s: Error subscribing to resource %s: %s", s.rid, v.RID, err)
 					// TODO handle error properly
 					return
+				}
+				// A resource already referenced by s, such as one moved between
+				// properties, is already counted and sent.
+				if had {
+					continue
 				}
 				hasUnsent = hasUnsent || !sub.IsSent()
 				if subs == nil {
